@@ -161,8 +161,9 @@ Fixpoint views_eqb (a : list (list (string * Z))) (b : list term) : bool :=
 Definition spec_e2e (i o : term) : bool :=
   let files := map gfile_of (gl (gn i 1)) in
   let ps := e2e_order (map gprofile_of (gl (gn i 2))) in
-  String.eqb (gs (gn o 0)) "ok" &&
-  views_eqb (e2e_views (gs (gn i 4)) (truth_samples files ps)) (tl (gl o)).
+  negb (world_in_scope files ps) ||
+  (String.eqb (gs (gn o 0)) "ok" &&
+   views_eqb (e2e_views (gs (gn i 4)) (truth_samples files ps)) (tl (gl o))).
 
 Definition run_C13 (i : term) : term :=
   let op := gs (gn i 0) in
